@@ -130,4 +130,29 @@ def mkHTMLC20b (x : PVal) : PyM PVal :=
   | some _ => throw .unsupported
   | Option.none => mkHTML x
 
+/-! ### `jsx.__new__`, `jsx.__add__`, `jsx_tag_create` -/
+
+/-- `str.__new__(jsx, e)` (`super().__new__(cls, e)` in `class jsx(str)`, for `cls = jsx`): a new `jsx` string with the text
+    of the `str` `e` (`"\n".join(args)` is one); other arguments (`str(e)` of an object) are outside the fragment -/
+def pyJsxNewC20b (x : PVal) : PyM PVal :=
+  match asStr x with
+  | .str s => pure (mkJsx s)
+  | _ => throw .unsupported
+
+/-- `str.__add__(a, b)`: the concatenation, an exact `str`, when `b` is a `str` (also of a subclass); for any other `b` the
+    method *returns* `NotImplemented` — a value the universe does not have; `str.__add__(5, "a")` raises TypeError (the
+    descriptor requires a `str`) -/
+def pyStrAddC20b (a b : PVal) : PyM PVal :=
+  match asStr a, asStr b with
+  | .str x, .str y => pure (.str (x ++ y))
+  | .str _, _ => throw .unsupported
+  | _, _ => throw .typeError
+
+/-- `f.__name__ = v` on a function object: TypeError ("__name__ must be set to a string object") unless `v` is a `str`
+    (a `jsx` string is one) -/
+def pySetFuncNameC20b (f v : PVal) : PyM PVal :=
+  match asStr v with
+  | .str _ => pySetAttr f "__name__" v
+  | _ => throw .typeError
+
 end HtmlVerif.Py
